@@ -41,6 +41,15 @@ func TestMain(m *testing.M) {
 
 var variants = clus.PinAlphabet()
 
+// withRequestCtx submits an operation the way a request handler does: with a
+// context of its own that ends as soon as the call has returned. An accepted
+// operation must not depend on the caller still being around.
+func withRequestCtx(parent context.Context, f func(context.Context) error) error {
+	rc, cancel := context.WithCancel(parent)
+	defer cancel()
+	return f(rc)
+}
+
 func cidOf(i int) cid.Cid { return clus.Cid(fmt.Sprintf("c%d", i)) }
 
 type finding struct{ key, detail string }
@@ -177,11 +186,11 @@ func runSingle(t *testing.T, cfg bcfg, evs []sev) (outcome string, viol []findin
 				var err error
 				if e.Kind == "pin" {
 					a.pin = variants[e.V].Make(cidOf(e.C))
-					err = p.Cons.LogPin(ctx, variants[e.V].Make(cidOf(e.C)))
+					err = withRequestCtx(ctx, func(rc context.Context) error { return p.Cons.LogPin(rc, variants[e.V].Make(cidOf(e.C))) })
 				} else {
 					a.unpin = true
 					a.pin = api.PinCid(cidOf(e.C))
-					err = p.Cons.LogUnpin(ctx, api.PinCid(cidOf(e.C)))
+					err = withRequestCtx(ctx, func(rc context.Context) error { return p.Cons.LogUnpin(rc, api.PinCid(cidOf(e.C))) })
 				}
 				if err != nil {
 					if !faulted && !errors.Is(err, crdt.ErrMaxQueueSizeReached) {
@@ -538,11 +547,11 @@ func runMulti(t *testing.T, n int, gossip bool, batching bool, relay bool, evs [
 					a.pin.Name = fmt.Sprintf("op%d", i)
 					q := variants[e.V].Make(cidOf(e.C))
 					q.Name = a.pin.Name
-					err = peers[e.R].Cons.LogPin(ctx, q)
+					err = withRequestCtx(ctx, func(rc context.Context) error { return peers[e.R].Cons.LogPin(rc, q) })
 				} else {
 					a.unpin = true
 					a.pin = api.PinCid(cidOf(e.C))
-					err = peers[e.R].Cons.LogUnpin(ctx, api.PinCid(cidOf(e.C)))
+					err = withRequestCtx(ctx, func(rc context.Context) error { return peers[e.R].Cons.LogUnpin(rc, api.PinCid(cidOf(e.C))) })
 				}
 				if err != nil {
 					fail("op-error-without-fault", "event %d %s: %v", i, e, err)
